@@ -10,8 +10,10 @@
    and the whole modelled state unchanged (keys/slots, index table, endpoint,
    rx/tx counters, handshake state and indices, lastTimestamp, lastInitiation-
    Consumption, lastSentHandshake, staged packets). *)
+From Coq Require Import String.
 From Coq Require Import Sorting.Sorted.
 From WG Require Import Base.Prelude Gen.Constants Tai64n.Model Tai64n.Proofs HsGate.Model HsGate.Spec HsGate.Proofs.
+From WG Require Tai64n.TaiAst Gen.TaiAst Tai64n.TaiAstProofs.
 Local Open Scope N_scope.
 
 Definition reach (cfg : list (N * N * N)) (now0 : N) (evs : list event) : state :=
@@ -350,3 +352,29 @@ Example C06_nonvacuous_window_suppressed_and_peer_initiation :
   (kcur (peers st 1), knext (peers st 1), lh (peers st 1), hs_state (peers st 1))
   = (None, Some {| k_local := 70; k_remote := 11; k_init := false |}, 0, 0).
 Proof. vm_compute. repeat split; reflexivity. Qed.
+
+(* THE TIE TO THE SOURCE for the timestamps (translator harness/cmd/taiast, rerun
+   on every check): Gen.TaiAst.after_body / stamp_body are the bodies of
+   Timestamp.After and stamp of tai64n/tai64n.go as terms of the deep-embedded
+   language of Tai64n/TaiAst.v (bytes.Compare as a lexicographic primitive,
+   PutUint64/PutUint32 big-endian stores, uint64/uint32 arithmetic, the
+   whitening mask from the const declarations).  The interpreted comparison is
+   the model's comparison on the encodings, the interpreted stamp is the model's
+   encoding, and two instants at least one whitening quantum apart are ordered
+   strictly by the interpreted source. *)
+Theorem C06_source_after_is_the_model : forall x y : ts,
+  Tai64n.TaiAst.run_after Gen.TaiAst.after_body (encode x) (encode y) = Some (after x y).
+Proof. exact Tai64n.TaiAstProofs.ast_after_correct. Qed.
+Print Assumptions C06_source_after_is_the_model.
+
+Theorem C06_source_stamp_is_the_model : forall t, (unix_s t < 2 ^ 62)%N ->
+  Tai64n.TaiAst.run_stamp Gen.TaiAst.stamp_body (unix_s t) (nano_of t) = Some (encode (stamp t)).
+Proof. exact Tai64n.TaiAstProofs.ast_stamp_instant. Qed.
+Print Assumptions C06_source_stamp_is_the_model.
+
+Theorem C06_source_stamps_strictly_ordered : forall t1 t2, (t1 + whitener <= t2)%N -> (unix_s t2 < 2 ^ 62)%N ->
+  exists e1 e2, Tai64n.TaiAst.run_stamp Gen.TaiAst.stamp_body (unix_s t1) (nano_of t1) = Some e1 /\
+                Tai64n.TaiAst.run_stamp Gen.TaiAst.stamp_body (unix_s t2) (nano_of t2) = Some e2 /\
+                Tai64n.TaiAst.run_after Gen.TaiAst.after_body e2 e1 = Some true.
+Proof. exact Tai64n.TaiAstProofs.ast_after_stamp_strict. Qed.
+Print Assumptions C06_source_stamps_strictly_ordered.
